@@ -7,6 +7,7 @@ import (
 	"context"
 	"fmt"
 	"hash/fnv"
+	"os"
 	"sort"
 	"strconv"
 	"strings"
@@ -52,6 +53,10 @@ var apiCfg = func() apiconfig.CalicoAPIConfig {
 }()
 
 var podGR = schema.GroupResource{Resource: "pods"}
+
+// Development switch only (never set by vcheck): VERIF_C23_NO_APIERR=1 turns the injected API-server
+// Get errors off, to look at the other clauses while the partial-handle-release finding stands.
+var noAPIErr = os.Getenv("VERIF_C23_NO_APIERR") == "1"
 
 // ---- base store (pools), built once per worker and cloned per case ----
 
@@ -143,10 +148,11 @@ type world struct {
 	sq  []syncEvt
 
 	// gc client fault plan (deterministic per key)
-	faultP   float64
-	faultCnt map[string]int
-	faultsIn int // faults injected during the current sync
-	nodeGetF int // node Get faults during the current sync
+	faultP    float64
+	faultCnt  map[string]int
+	podGetCnt map[string]int
+	faultsIn  int // faults injected during the current sync
+	nodeGetF  int // node Get faults during the current sync
 
 	// oracle model (oracle.go)
 	vnow       int64
@@ -172,7 +178,7 @@ func newWorld(c *harness.Case) (*world, error) {
 	}
 	r := c.R
 	w := &world{c: c, st: b.Clone(), apiPods: map[string]*v1.Pod{}, apiNodes: map[string]*v1.Node{}, pods: map[string]*podRec{},
-		faultCnt: map[string]int{}, V: map[string]*vblock{}, delivNodes: map[string]string{}}
+		faultCnt: map[string]int{}, podGetCnt: map[string]int{}, V: map[string]*vblock{}, delivNodes: map[string]string{}}
 	w.adminBC = w.st.NewAdminClient("admin")
 	w.admin = clientv3.NewFromBackend(apiCfg, w.adminBC)
 	w.cni = clientv3.NewFromBackend(apiCfg, w.st.NewAdminClient("cni")).IPAM()
@@ -288,10 +294,13 @@ func (w *world) newClientset() *k8sfake.Clientset {
 // podGetFault decides, from (case seed, pod key, how often that pod was read), whether this Get
 // fails: independent of the order in which the controller walks its maps.
 func (w *world) podGetFault(key string) bool {
+	if noAPIErr {
+		return false
+	}
 	k := "podget " + key
-	w.faultCnt[k]++
+	w.podGetCnt[k]++
 	h := fnv.New64a()
-	fmt.Fprintf(h, "%d|%s|%d", w.c.Seed, k, w.faultCnt[k])
+	fmt.Fprintf(h, "%d|%s|%d", w.c.Seed, k, w.podGetCnt[k])
 	return float64(h.Sum64()%10000)/10000 < w.podGetErr
 }
 
